@@ -1,13 +1,56 @@
-"""C11 — The ground-program builder preserves Boolean meaning (bounded stand-in only; see bounded/c11.py).
+"""C11 — The ground-program builder preserves Boolean meaning.
 
-Run-time contract on the real functions evaluated over a bounded input family against an independent
-reference (symbolic truth-table model / Robinson unifier / equivalence laws).  Never counted as proved.
+Proof part (key manipulation, problog/formula.py BaseFormula): is_true / is_false / is_probabilistic / negate are proved
+for every key (None = FALSE, 0 = TRUE, +-n = literal of node n): negate is an involution and, under every valuation of
+the nodes, the literal denoted by negate(k) is the complement of the literal denoted by k (lemma negate_is_complement) -
+this is what every caller that builds `\\+x`, negative evidence or the negation of a compound relies on.
+Bounded part (bounded/c11.py): builder call sequences against a truth-table model.  _add_compound / _add / _update /
+add_disjunct work on namedtuple nodes with keyword construction, OrderedSet/set/map/filter pipelines and hash-consing
+dictionaries keyed by tuples: outside the verifier's subset.
 """
 from pyvc.dsl import *
 
 S = Spec("C11", "The ground-program builder preserves Boolean meaning")
 LEVEL = "exploration"
-S.unverified("everything: bounded run-time contract only")
+S.cls("problog.formula:BaseFormula")
+S.alias("Key", "Opt[Int]")
+S.alias("F", "Ref[BaseFormula]")
+F = None
+S.global_defs = dict(
+    # the truth value a key denotes under a valuation v of the nodes
+    LIT="lambda v, k: False if k is None else (True if unwrap(k) == 0 else"
+        " (v[unwrap(k)] if unwrap(k) > 0 else not v[-unwrap(k)]))")
+
+S.fn("problog.formula:BaseFormula.is_true", types={"key": "Key"}, returns="Bool",
+     ensures=["result == (key is not None and unwrap(key) == 0)"])
+S.fn("problog.formula:BaseFormula.is_false", types={"key": "Key"}, returns="Bool",
+     ensures=["result == (key is None)"])
+S.fn("problog.formula:BaseFormula.is_probabilistic", types={"key": "Key"}, returns="Bool",
+     ensures=["result == (key is not None and unwrap(key) != 0)"])
+S.fn("problog.formula:BaseFormula.negate", types={"key": "Key"}, returns="Key",
+     ensures=["implies(key is None, result is not None and unwrap(result) == 0)",
+              "implies(key is not None and unwrap(key) == 0, result is None)",
+              "implies(key is not None and unwrap(key) != 0, result is not None and unwrap(result) == -unwrap(key))"])
+
+
+def negate_is_complement(f: F, k: "Key", v: "Dict[Int,Bool]"):
+    """Under every valuation, negate(k) denotes the complement of k; and negate is an involution."""
+    requires(implies(k is not None and unwrap(k) != 0, (unwrap(k) if unwrap(k) > 0 else -unwrap(k)) in v))
+    n = f.negate(k)
+    assert LIT(v, n) == (not LIT(v, k))
+    assert f.negate(n) == k
+
+
+def probabilistic_keys_are_literals(f: F, k: "Key"):
+    assert f.is_probabilistic(k) == (not f.is_true(k) and not f.is_false(k))
+    assert implies(f.is_probabilistic(k), f.is_probabilistic(f.negate(k)))
+
+
+S.lemma(negate_is_complement, module="problog.formula")
+S.lemma(probabilistic_keys_are_literals, module="problog.formula")
+
+S.unverified("_add_compound, _add, _update, add_atom, add_and, add_or, add_disjunct, add_name: bounded stand-in only "
+             "(bounded/c11.py)")
 
 
 def bounded(tier, seed):
